@@ -388,6 +388,26 @@ class Frame(object):
                     self.loop_ord[id(node)] = n
 
 
+def _simple_test(e):
+    """a comparison (or negation / conjunction of such) whose operands are names, numbers and + - of those"""
+    def atom(x):
+        if isinstance(x, (ast.Name, ast.Constant)):
+            return not isinstance(x, ast.Constant) or isinstance(x.value, (int, float, bool))
+        if isinstance(x, ast.BinOp) and isinstance(x.op, (ast.Add, ast.Sub)):
+            return atom(x.left) and atom(x.right)
+        if isinstance(x, ast.UnaryOp) and isinstance(x.op, ast.USub):
+            return atom(x.operand)
+        return False
+    if isinstance(e, ast.Compare):
+        return all(isinstance(o, (ast.Lt, ast.LtE, ast.Gt, ast.GtE, ast.Eq, ast.NotEq)) for o in e.ops) and \
+            atom(e.left) and all(atom(c) for c in e.comparators)
+    if isinstance(e, ast.UnaryOp) and isinstance(e.op, ast.Not):
+        return _simple_test(e.operand)
+    if isinstance(e, ast.BoolOp):
+        return all(_simple_test(v) for v in e.values)
+    return False
+
+
 def local_names(fn):
     """names bound inside a function (not its parameters), in order of first binding: what loop annotations may mention"""
     seen, params = [], set()
@@ -1201,6 +1221,21 @@ class Exec(object):
             if not acc:
                 return last
             return mk_bool(z3.And(acc) if is_and else z3.Or(acc))
+        if all(_simple_test(e) for e in node.values):
+            # comparisons of plain names and constants cannot raise or have effects: short-circuiting is unobservable,
+            # so the operands are combined into one condition instead of forking the path at each of them
+            try:
+                vals = [self.eval(e) for e in node.values]
+            except Raised:
+                vals = [None]       # (an unbound name, say): evaluate operand by operand as Python does
+            if all(isinstance(x, (bool, SBool)) for x in vals):
+                ts = [self.truth(x) for x in vals]
+                if any(isinstance(t, bool) and t != is_and for t in ts):
+                    return not is_and
+                acc = [t for t in ts if not isinstance(t, bool)]
+                if not acc:
+                    return is_and
+                return mk_bool(z3.And(acc) if is_and else z3.Or(acc))
         v = None
         for i, e in enumerate(node.values):
             v = self.eval(e)
